@@ -40,10 +40,29 @@ def rule_env_factory(prog: Program, col: Collector) -> None:
         col.check(len(a) == 3 and a[1] == ("attr", SELF, "number_of_players"), ref.where(e.node), ref.short,
                   "the generator partial binds (number_of_players, rng) positionally", construct="env-generator-args", necessity="")
     rets = list(ft.of_kind("return"))
-    okl = any(is_call_to(r.value, P + "icg_gym_linear.ICG_Gym_Linear") and r.value[2] and r.value[2][0] == e.term and
-              any(f[0] == "if" and f[1] == ("attr", SELF, "linear") and f[2] is True for f in r.ctx) for r in rets)
-    okp = any(r.value == e.term for r in rets)
-    col.check(okl and okp, ref.where(), ref.short, "returns the env itself, or its linear wrapper iff self.linear", construct="env-return", necessity="")
+    lin = ("attr", SELF, "linear")
+
+    def alternatives(t, conds):
+        """(conditions on self.linear, value) pairs of a returned term; conditional expressions are split."""
+        if t is not None and t[0] in ("ifexp", "phi") and t[1] == lin:
+            yield from alternatives(t[2], conds + (True,))
+            yield from alternatives(t[3], conds + (False,))
+        else:
+            yield conds, t
+
+    alts = [a for r in rets for a in alternatives(r.value, tuple(f[2] for f in r.ctx if f[0] == "if" and f[1] == lin))]
+    n_lin = n_plain = n_bad = 0
+    for conds, v in alts:
+        if v is not None and is_call_to(v, P + "icg_gym_linear.ICG_Gym_Linear") and v[2] and v[2][0] == e.term:
+            n_lin += 1
+            n_bad += True not in conds
+        elif v == e.term:
+            n_plain += 1
+            n_bad += True in conds
+        else:
+            n_bad += 1
+    col.check(n_lin >= 1 and n_plain >= 1 and not n_bad, ref.where(), ref.short, "returns the env itself, or its linear wrapper iff self.linear",
+              construct="env-return", necessity="")
 
 
 def rule_solve_wiring(prog: Program, col: Collector) -> None:
@@ -65,6 +84,7 @@ def rule_solve_wiring(prog: Program, col: Collector) -> None:
     nxt, rst = b.get("get_next_step"), b.get("after_reset")
     ok = nxt is not None and rst is not None and nxt[0] == "attr" and rst[0] == "attr" and nxt[2] == "next_step" and rst[2] == "after_reset" and nxt[1] == rst[1] \
         and nxt[1][0] == "call" and nxt[1][1] == ("index", ("global", P + "solvers.SOLVERS"), ("attr", pa, "solver")) and nxt[1][2] == (inst,)
+    ok = ok and sum(1 for c in ft.calls() if c.term == nxt[1]) == 1      # constructed once: terms carry no identity, call events do
     col.check(ok, ref.where(e.node), ref.short, "next_step and after_reset are bound methods of the one SOLVERS[args.solver](instance) object", construct="solve-solver", necessity="")
     ok2 = b.get("env_generator") == ("attr", inst, "get_env") and b.get("repetitions") == ("attr", pa, "solve_repetitions") and \
         b.get("gap_func") == ("attr", inst, "gap_function_callable") and b.get("processes") == ("attr", inst, "parallel_environments")
